@@ -87,7 +87,7 @@ def run(shard):
     import hcommon as H
     import corpus
     cd = H.import_repo()
-    from code_data import _code_data
+    _code_data = H.lib("_code_data")
 
     state = {"case": None}
     jump_ops = set(dis.hasjabs) | set(dis.hasjrel)
